@@ -437,6 +437,14 @@ func (tr *tracer) evalBool(info *types.Info, e ast.Expr, st *pathState) []boolCo
 					}
 				}
 			}
+			// a local known to be nil / not nil (the error result of an inlined helper)
+			if x.Op == token.EQL || x.Op == token.NEQ {
+				for _, pr := range [][2]ast.Expr{{x.X, x.Y}, {x.Y, x.X}} {
+					if id, ok := ast.Unparen(pr[0]).(*ast.Ident); ok && st.known[id.Name] && isNil(info, pr[1]) {
+						return []boolCont{{st, (st.store[id.Name] == 0) == (x.Op == token.EQL)}}
+					}
+				}
+			}
 			// comparisons of a known local with a constant
 			if id, ok := ast.Unparen(x.X).(*ast.Ident); ok && st.known[id.Name] {
 				if k, ok := constInt(info, x.Y); ok {
@@ -895,6 +903,13 @@ func (tr *tracer) execStmt(fi *FuncInfo, s ast.Stmt, st *pathState) []*pathState
 							rv = retVal{0, true}
 						case s2.known[id.Name]:
 							rv = retVal{s2.store[id.Name], true}
+						case id.Name == "nil" && isNil(info, id):
+							rv = retVal{0, true}
+						}
+					} else if c, ok := re.(*ast.CallExpr); ok {
+						// a freshly built error is not nil
+						if n := calleeName(info, c); n == "fmt.Errorf" || n == "errors.New" || n == "NewErrProtocol" {
+							rv = retVal{1, true}
 						}
 					}
 					s2.rets = append(s2.rets, rv)
@@ -1708,6 +1723,9 @@ func isFieldPath(e ast.Expr) bool {
 	case *ast.Ident:
 		return x.Name != "true" && x.Name != "false" && x.Name != "nil" && x.Name != "_"
 	case *ast.SelectorExpr:
+		return isFieldPath(x.X)
+	case *ast.StarExpr:
+		// a copy of what a pointer refers to (payload := *customPayload): normAtom drops the indirection
 		return isFieldPath(x.X)
 	}
 	return false
